@@ -204,6 +204,14 @@ def run(chk):
     else:
         chk.bad('C33-union', 'Context::get_match_call_t', 'union', 'the type compared with the scrutinee (`%s`) is not accumulated with self.union over all arms' % union_local, FILE, target['l'])
     interval_rule(chk, fx)
+    # the exhaustiveness test is `scrutinee type <: union of the arm types`: its union arms decide whether every member of a scrutinee union is covered
+    chk.rule('C33-union', 'in Context::structural_supertype_of every arm whose sub side is a union answers for all its members, every arm whose super side is a union for some member '
+                          '(shared with C06-union): with `any` on the sub side the literal arms for one member of `{"a", "b"} or Int` count as covering the whole scrutinee')
+    from sa.props import c06
+    f6 = fx.fn(c06.COMPARE, 'Context::structural_supertype_of')
+    ms6 = [n for n in T.walk(f6['body']) if n.get('k') == 'Match' and n.get('src') == 'Normal']
+    if chk.need(ms6, 'structural_supertype_of: no match'):
+        c06.quantifier_structure(chk, max(ms6, key=lambda n: len(n['arms'])), 'C33-union')
     return ('Dominance rule over the structured HIR of Context::get_match_call_t, and a table-agreement rule (typed HIR + python ast) over the four interval operators. '
             'Soundness of sub_unify / union for other pattern types is not decided.'), {}
     return ('Dominance rule over the structured HIR of Context::get_match_call_t. Soundness of sub_unify / union and the run-time arm tests are not decided.'), {}
